@@ -501,7 +501,7 @@ def jobs_for(tier, jobs=None):
     if env:
         return int(env)
     n = os.cpu_count() or 4
-    return min(n, 16) if tier == "thorough" else min(n, 8)
+    return min(n, 16)
 
 
 # --------------------------------------------------------------------------
